@@ -69,7 +69,7 @@ theorem C04_release_in_order (U : Universe) (hU : U.WF) (hp : Passive U) (held h
       Forall2 (fun e c => DeliveredOnce (run U fuel (init held hints) ops) e.1 c)
         (run U fuel (init held hints) ops).queue lists ∧
       (execOp U (fuel' + 1) (run U fuel (init held hints) ops) (.enable true)).1.log =
-        ((List.zipWith (fun e c => c.map (cbEntry e.2))
+        ((List.zipWith (fun e c => c.map (cbEntry U e.2))
             (run U fuel (init held hints) ops).queue lists).flatten).reverse ++
           (run U fuel (init held hints) ops).log ∧
       (execOp U (fuel' + 1) (run U fuel (init held hints) ops) (.enable true)).1.queue = [] := by
